@@ -319,12 +319,6 @@ impl RuleGen {
     pub fn new() -> RuleGen {
         RuleGen { probe: 0, probes: 5, poison: 3, ops: all_ops() }
     }
-    pub fn probe(&mut self, inner: Value) -> Value {
-        self.probe += 1;
-        // the logged value is made unique by concatenation when the operand is a string,
-        // otherwise a unique string is logged around it
-        json!({"log": [inner]})
-    }
     pub fn uprobe(&mut self) -> Value {
         self.probe += 1;
         json!({ "log": format!("p{}", self.probe) })
@@ -435,15 +429,4 @@ impl RuleGen {
         }
         Value::Object(m)
     }
-}
-
-pub fn op1(op: &str, args: Vec<Value>) -> Value {
-    let mut m = Map::new();
-    m.insert(op.to_string(), Value::Array(args));
-    Value::Object(m)
-}
-pub fn op_raw(op: &str, arg: Value) -> Value {
-    let mut m = Map::new();
-    m.insert(op.to_string(), arg);
-    Value::Object(m)
 }
